@@ -237,8 +237,8 @@ Section RACE.
   Definition L (s : rspec) (p : pt) (f : fs) : Prop :=
     match p with
     | P0 | P1 => tmpN s f
-    | P2 | P3 | P4 | P4b => tmpN s f /\ abs0 s
-    | P5 | P6 => tmpN s f /\ abs0 s /\ dirD s f
+    | P2 | P3 | P4 => tmpN s f /\ abs0 s
+    | P4b | P5 | P6 => tmpN s f /\ abs0 s /\ dirD s f
     | P7 => abs0 s /\ dirD s f /\ get f (tmpp s) = Some (File empty_content)
     | P8 | P9 => abs0 s /\ dirD s f /\ get f (tmpp s) = Some (File (jc s))
     | P10 | PD => tmpN s f /\ validf f s
@@ -281,5 +281,343 @@ Section RACE.
     unfold tmpN in *.
     destruct p; cbn [L] in *; unfold tmpN in *; repeat match goal with H : _ /\ _ |- _ => destruct H end;
       repeat split; auto; try (rewrite Htmp; assumption).
+  Qed.
+
+  Lemma validf_same_file : forall f s t, filep t = filep s -> validf f s -> validf f t.
+  Proof.
+    intros f s t E [c [v [Hg [Hj Hv]]]]. exists c, v. rewrite E. split; auto. split; auto.
+    destruct (filep_inj t s E) as [_ Ej]. congruence.
+  Qed.
+
+  Lemma G_step : forall s f f', G f -> In s specs -> Guar s f f' ->
+    (get f' (dirp s) = get f0 (dirp s) \/ get f' (dirp s) = Some Dir) ->
+    ((validf f0 s -> get f' (filep s) = get f0 (filep s)) /\
+     (get f0 (filep s) = None -> get f' (filep s) = None \/ get f' (filep s) = Some (File (jc s)))) ->
+    (get f' (tmpp s) = None \/ exists c, get f' (tmpp s) = Some (File c)) ->
+    (get f' (filep s) <> None -> get f' (dirp s) = Some Dir) ->
+    G f'.
+  Proof.
+    intros s f f' [g1 [g2 [g3 [g4 g5]]]] Hs [A1 [A2 A3]] o2 o3 o4 o5. repeat split.
+    - intros q Hq. rewrite A1; [apply g1; exact Hq| | |]; intro E; apply Hq; exists s; auto.
+    - intros t Ht. destruct (path_eq_dec (dirp t) (dirp s)) as [E|E].
+      + rewrite E. exact o2.
+      + rewrite A1; auto. apply dirp_ne_filep. apply dirp_ne_tmpp.
+    - intros Hv. destruct (path_eq_dec (filep s0) (filep s)) as [E|E].
+      + rewrite E. apply (proj1 o3). apply (validf_same_file f0 s0 s); auto.
+      + rewrite A1; auto; [apply (proj1 (g3 s0 H)); exact Hv| |apply filep_ne_tmpp].
+        intro E'. apply (dirp_ne_filep s s0). auto.
+    - intros Hn. destruct (path_eq_dec (filep s0) (filep s)) as [E|E].
+      + rewrite E in *. destruct (filep_inj s0 s E) as [_ Ej].
+        assert (Ejc : jc s0 = jc s) by (unfold jc; rewrite (Hsame s0 s H Hs Ej); reflexivity).
+        rewrite Ejc. apply (proj2 o3). exact Hn.
+      + rewrite A1; auto; [apply (proj2 (g3 s0 H)); exact Hn| |apply filep_ne_tmpp].
+        intro E'. apply (dirp_ne_filep s s0). auto.
+    - intros t Ht. destruct (path_eq_dec (tmpp t) (tmpp s)) as [E|E].
+      + rewrite E. exact o4.
+      + rewrite A1; auto. intro E'. apply (dirp_ne_tmpp s t). auto. intro E'. apply (filep_ne_tmpp s t). auto.
+    - intros t Ht Hn. destruct (path_eq_dec (filep t) (filep s)) as [E|E].
+      + destruct (filep_inj t s E) as [Ed _]. rewrite Ed. apply o5. rewrite <- E. exact Hn.
+      + assert (Hf : get f' (filep t) = get f (filep t)).
+        { apply A1; auto. intro E'. apply (dirp_ne_filep s t). auto. apply filep_ne_tmpp. }
+        rewrite Hf in Hn. pose proof (g5 t Ht Hn) as Hd.
+        destruct (path_eq_dec (dirp t) (dirp s)) as [Ed|Ed].
+        * rewrite Ed in *. auto.
+        * rewrite A1; auto. apply dirp_ne_filep. apply dirp_ne_tmpp.
+  Qed.
+
+  Lemma exec_read_file : forall f p c, get f p = Some (File c) -> exec_res f (CRead p) = (f, FOk (RData c)).
+  Proof. intros f p c H. unfold exec_res. cbn [exec]. rewrite H. reflexivity. Qed.
+  Lemma exec_read_none : forall f p, get f p = None -> exec_res f (CRead p) = (f, FErr ENOENT).
+  Proof. intros f p H. unfold exec_res. cbn [exec]. rewrite H. reflexivity. Qed.
+
+  Lemma G_same : forall s f, G f -> In s specs ->
+    (get f (dirp s) = get f0 (dirp s) \/ get f (dirp s) = Some Dir) /\
+    ((validf f0 s -> get f (filep s) = get f0 (filep s)) /\
+     (get f0 (filep s) = None -> get f (filep s) = None \/ get f (filep s) = Some (File (jc s)))) /\
+    (get f (tmpp s) = None \/ exists c, get f (tmpp s) = Some (File c)) /\
+    (get f (filep s) <> None -> get f (dirp s) = Some Dir).
+  Proof. intros s f [g1 [g2 [g3 [g4 g5]]]] Hs. repeat split; auto; apply g3; auto. Qed.
+
+  Definition step_goal (s : rspec) (f : fs) (c : call) (k : fres val -> prog (list aobs)) : Prop :=
+    exists p', k (snd (exec_res f c)) = pa s p' /\ L s p' (fst (exec_res f c)) /\
+               G (fst (exec_res f c)) /\ Guar s f (fst (exec_res f c)).
+
+  Ltac same_state P HG := exists P; split; [first [reflexivity|assumption|idtac]|split; [cbn [L]; repeat split; auto|split; [exact HG|apply Guar_refl]]].
+
+  Lemma step_ok : forall s p f c k, In s specs -> G f -> L s p f -> pa s p = Do c k -> step_goal s f c k.
+  Proof.
+    intros s p f c k Hs HG HL Hpa. unfold step_goal.
+    destruct (G_same s f HG Hs) as [q2 [[q3a q3b] [q4 q5]]].
+    destruct (Hpre s Hs) as [pd [pf [pt0 pfd]]].
+    destruct p; cbn [L] in HL.
+    - (* P0 *) rewrite pa0 in Hpa. injection Hpa as <- <-.
+      rewrite exec_res_stat, (G_ws f HG). cbn [fst snd kind_of is_dir_r]. same_state P1 HG.
+    - (* P1 *) destruct (pa1 s) as [k0 [E [Hk1 Hk2]]]. rewrite E in Hpa. injection Hpa as <- <-.
+      destruct pf as [pf|pf].
+      + destruct (q3b pf) as [Hn|Hj].
+        * rewrite (exec_read_none f _ Hn). cbn [fst snd]. rewrite Hk1. same_state P2 HG.
+        * rewrite (exec_read_file f _ _ Hj). cbn [fst snd].
+          rewrite (Hk2 (jc s) (r_sp s) eq_refl eq_refl). same_state PD HG.
+          exists (jc s), (r_sp s). auto.
+      + pose proof pf as [c0 [v [Hg [Hj Hv]]]]. rewrite <- (q3a pf) in Hg.
+        rewrite (exec_read_file f _ _ Hg). cbn [fst snd]. rewrite (Hk2 c0 v Hj Hv). same_state PD HG.
+        exists c0, v. auto.
+    - (* P2 *) destruct HL as [Ht Ha]. destruct (pa2 s) as [k0 [E [Hk1 Hk2]]]. rewrite E in Hpa. injection Hpa as <- <-.
+      rewrite exec_res_stat. cbn [fst snd].
+      assert (Hd : get f (dirp s) = None \/ get f (dirp s) = Some Dir).
+      { destruct q2 as [q2|q2]; [rewrite q2; exact pd|auto]. }
+      destruct Hd as [Hd|Hd]; rewrite Hd; cbn [kind_of].
+      + rewrite Hk2. same_state P3 HG.
+      + rewrite Hk1. same_state P5 HG.
+    - (* P3 *) destruct HL as [Ht Ha]. destruct (pa3 s) as [k0 [E Hk1]]. rewrite E in Hpa. injection Hpa as <- <-.
+      rewrite exec_res_stat, (G_ws f HG). cbn [fst snd kind_of]. rewrite Hk1. same_state P4 HG.
+    - (* P4 *) destruct HL as [Ht Ha]. destruct (pa4 s) as [k0 [E [Hk1 Hk2]]]. rewrite E in Hpa. injection Hpa as <- <-.
+      assert (Hd : get f (dirp s) = None \/ get f (dirp s) = Some Dir).
+      { destruct q2 as [q2|q2]; [rewrite q2; exact pd|auto]. }
+      destruct Hd as [Hd|Hd].
+      + destruct (mkdir_ok f (dirp s) Hd) as [f' [Ef Hf]]; [rewrite par_dirp; apply (G_ws f HG)|].
+        rewrite Ef. cbn [fst snd]. rewrite Hk1.
+        assert (Hsame' : forall q, q <> dirp s -> get f' q = get f q).
+        { intros q Hq. rewrite Hf. apply path_eqb_neq in Hq. rewrite Hq. reflexivity. }
+        assert (Hdir' : get f' (dirp s) = Some Dir) by (rewrite Hf, path_eqb_refl; reflexivity).
+        assert (Hfile' : get f' (filep s) = get f (filep s)) by (apply Hsame'; intro Q; apply (dirp_ne_filep s s); auto).
+        assert (Htmp' : get f' (tmpp s) = get f (tmpp s)) by (apply Hsame'; intro Q; apply (dirp_ne_tmpp s s); auto).
+        assert (HGu : Guar s f f') by (split; [intros; apply Hsame'; auto|split; [auto|intros; exact Hfile']]).
+        exists P5. split; [reflexivity|]. split; [|split; [|exact HGu]].
+        * cbn [L]. unfold tmpN, dirD. rewrite Htmp'. auto.
+        * apply (G_step s f f' HG Hs HGu); rewrite ?Hfile', ?Htmp'; auto.
+      + assert (Ef : exec_res f (CMkdir (dirp s)) = (f, FErr EEXIST)).
+        { unfold exec_res. cbn [exec]. unfold mkdir. rewrite Hd. reflexivity. }
+        rewrite Ef. cbn [fst snd]. rewrite Hk2. same_state P4b HG.
+    - (* P4b *) destruct HL as [Ht [Ha Hd]]. destruct (pa4b s) as [k0 [E Hk1]]. rewrite E in Hpa. injection Hpa as <- <-.
+      rewrite exec_res_stat. unfold dirD in Hd. rewrite Hd. cbn [fst snd kind_of]. rewrite Hk1. same_state P5 HG.
+    - (* P5 *) destruct HL as [Ht [Ha Hd]]. destruct (pa5 s) as [k0 [E [Hk1 Hk2]]]. rewrite E in Hpa. injection Hpa as <- <-.
+      rewrite exec_res_stat. cbn [fst snd]. destruct (q3b Ha) as [Hn|Hj]; [rewrite Hn|rewrite Hj]; cbn [kind_of].
+      + rewrite Hk1. same_state P6 HG.
+      + rewrite Hk2. same_state P10 HG. exists (jc s), (r_sp s). auto.
+    - (* P6 *) destruct HL as [Ht [Ha Hd]]. destruct (pa6 s) as [k0 [E Hk1]]. rewrite E in Hpa. injection Hpa as <- <-.
+      destruct (openw_ok f (tmpp s)) as [f' [Ef Hf]]; [rewrite Ht; discriminate|rewrite par_tmpp; exact Hd|].
+      rewrite Ef. cbn [fst snd]. rewrite Hk1.
+      assert (Hsame' : forall q, q <> tmpp s -> get f' q = get f q).
+      { intros q Hq. rewrite Hf. apply path_eqb_neq in Hq. rewrite Hq. reflexivity. }
+      assert (Htmp' : get f' (tmpp s) = Some (File empty_content)) by (rewrite Hf, path_eqb_refl; reflexivity).
+      assert (Hdir' : get f' (dirp s) = get f (dirp s)) by (apply Hsame'; apply dirp_ne_tmpp).
+      assert (Hfile' : get f' (filep s) = get f (filep s)) by (apply Hsame'; apply filep_ne_tmpp).
+      assert (HGu : Guar s f f') by (split; [intros; apply Hsame'; auto|split; [intros; rewrite Hdir'; auto|intros; exact Hfile']]).
+      exists P7. split; [reflexivity|]. split; [|split; [|exact HGu]].
+      * cbn [L]. unfold dirD. rewrite Hdir'. auto.
+      * apply (G_step s f f' HG Hs HGu); rewrite ?Hfile', ?Hdir'; eauto.
+    - (* P7 *) destruct HL as [Ha [Hd Htm]]. destruct (pa7 s) as [k0 [E Hk1]]. rewrite E in Hpa. injection Hpa as <- <-.
+      destruct (write_open_ok f (tmpp s) _ (jc s) Htm) as [f' [Ew Hf]]; [rewrite par_tmpp; exact Hd|].
+      assert (Ef : exec_res f (CWrite (tmpp s) (jc s)) = (f', FOk RUnit)) by (unfold exec_res; cbn [exec]; rewrite Ew; reflexivity).
+      rewrite Ef. cbn [fst snd]. rewrite Hk1.
+      assert (Hsame' : forall q, q <> tmpp s -> get f' q = get f q).
+      { intros q Hq. rewrite Hf. apply path_eqb_neq in Hq. rewrite Hq. reflexivity. }
+      assert (Htmp' : get f' (tmpp s) = Some (File (jc s))) by (rewrite Hf, path_eqb_refl; reflexivity).
+      assert (Hdir' : get f' (dirp s) = get f (dirp s)) by (apply Hsame'; apply dirp_ne_tmpp).
+      assert (Hfile' : get f' (filep s) = get f (filep s)) by (apply Hsame'; apply filep_ne_tmpp).
+      assert (HGu : Guar s f f') by (split; [intros; apply Hsame'; auto|split; [intros; rewrite Hdir'; auto|intros; exact Hfile']]).
+      exists P8. split; [reflexivity|]. split; [|split; [|exact HGu]].
+      * cbn [L]. unfold dirD. rewrite Hdir'. auto.
+      * apply (G_step s f f' HG Hs HGu); rewrite ?Hfile', ?Hdir'; eauto.
+    - (* P8 *) destruct (pa8 s) as [k0 [E Hk1]]. rewrite E in Hpa. injection Hpa as <- <-.
+      unfold exec_res. cbn [exec fst snd]. rewrite Hk1. exists P9. split; [reflexivity|]. split; [exact HL|]. split; [exact HG|apply Guar_refl].
+    - (* P9 *) destruct HL as [Ha [Hd Htm]]. destruct (pa9 s) as [k0 [E Hk1]]. rewrite E in Hpa. injection Hpa as <- <-.
+      assert (Hfd : get f (filep s) <> Some Dir) by (destruct (q3b Ha) as [Q|Q]; rewrite Q; discriminate).
+      destruct (rename_file_ok f (tmpp s) (filep s) (jc s) Htm) as [f' [Ef Hf]];
+        [rewrite par_filep; exact Hd|apply not_eq_sym; apply filep_ne_tmpp|exact Hfd|].
+      rewrite Ef. cbn [fst snd]. rewrite Hk1.
+      assert (Hfile' : get f' (filep s) = Some (File (jc s))) by (rewrite Hf, path_eqb_refl; reflexivity).
+      assert (Htmp' : get f' (tmpp s) = None).
+      { rewrite Hf. assert (Q : path_eqb (tmpp s) (filep s) = false) by (apply path_eqb_neq; apply not_eq_sym; apply filep_ne_tmpp).
+        rewrite Q, path_eqb_refl. reflexivity. }
+      assert (Hsame' : forall q, q <> filep s -> q <> tmpp s -> get f' q = get f q).
+      { intros q Q1 Q2. rewrite Hf. apply path_eqb_neq in Q1, Q2. rewrite Q1, Q2. reflexivity. }
+      assert (Hdir' : get f' (dirp s) = Some Dir) by (rewrite Hsame'; [exact Hd|apply dirp_ne_filep|apply dirp_ne_tmpp]).
+      assert (HGu : Guar s f f').
+      { split; [intros; apply Hsame'; auto|split; [auto|]]. intro Hn. rewrite Hfile'. destruct (q3b Ha) as [Q|Q]; congruence. }
+      exists P10. split; [reflexivity|]. split; [|split; [|exact HGu]].
+      * cbn [L]. split; [exact Htmp'|]. exists (jc s), (r_sp s). auto.
+      * apply (G_step s f f' HG Hs HGu); rewrite ?Hfile', ?Hdir', ?Htmp'; auto.
+        split; [|auto]. intros [c0 [v0 [Q _]]]. unfold abs0 in Ha. congruence.
+    - (* P10 *) destruct HL as [Ht Hv]. destruct (pa10 s) as [k0 [E Hk1]]. rewrite E in Hpa. injection Hpa as <- <-.
+      pose proof Hv as [c0 [v [Hg [Hj Hvv]]]].
+      rewrite (exec_read_file f _ _ Hg). cbn [fst snd]. rewrite (Hk1 c0 v Hj Hvv). same_state PD HG.
+    - (* PD *) discriminate.
+  Qed.
+
+  (* ---- the whole system *)
+  Definition Rl (f : fs) (s : rspec) (p : prog (list aobs)) : Prop := exists q, p = pa s q /\ L s q f.
+
+  Lemma nodup_specs : NoDup specs.
+  Proof. apply (NoDup_map_inv r_tag). exact Htags. Qed.
+
+  Lemma Forall2_impl_in : forall X Y (R R' : X -> Y -> Prop) (l1 : list X) (l2 : list Y),
+    Forall2 R l1 l2 -> (forall t p, In t l1 -> R t p -> R' t p) -> Forall2 R' l1 l2.
+  Proof.
+    intros X Y R R' l1 l2 H. induction H as [|t p l1 l2 Hr Hrest IH]; intros Himp; constructor.
+    - apply Himp; auto. left. reflexivity.
+    - apply IH. intros t0 p0 Hin Hr0. apply Himp; auto. right. exact Hin.
+  Qed.
+
+  Lemma Forall2_upd : forall X Y (R R' : X -> Y -> Prop) (l1 : list X) (l2 : list Y) a x y,
+    Forall2 R l1 l2 -> NoDup l1 -> nth_error l1 a = Some x -> R' x y ->
+    (forall t p, In t l1 -> t <> x -> R t p -> R' t p) -> Forall2 R' l1 (upd_nth a y l2).
+  Proof.
+    intros X Y R R' l1 l2 a x y H. revert a. induction H as [|t p l1 l2 Hr Hrest IH]; intros a Hnd Hn Hx Hoth.
+    - destruct a; discriminate.
+    - inversion Hnd as [|? ? Hnotin Hnd']; subst. destruct a as [|a]; simpl in *.
+      + injection Hn as ->. constructor; auto.
+        apply (Forall2_impl_in _ _ R R' l1 l2 Hrest). intros t0 p0 Hin Hr0.
+        apply Hoth; [right; exact Hin| |exact Hr0]. intro E. subst. contradiction.
+      + constructor.
+        * apply Hoth; [left; reflexivity| |exact Hr]. intro E. subst. apply Hnotin. eapply nth_error_In; eauto.
+        * apply (IH a); auto.
+  Qed.
+
+  Lemma pa_do_or_done : forall s q, q = PD \/ exists c k, pa s q = Do c k.
+  Proof.
+    intros s q. destruct q; auto; right.
+    - rewrite pa0. eauto.
+    - destruct (pa1 s) as [k [E _]]. eauto.
+    - destruct (pa2 s) as [k [E _]]. eauto.
+    - destruct (pa3 s) as [k [E _]]. eauto.
+    - destruct (pa4 s) as [k [E _]]. eauto.
+    - destruct (pa4b s) as [k [E _]]. eauto.
+    - destruct (pa5 s) as [k [E _]]. eauto.
+    - destruct (pa6 s) as [k [E _]]. eauto.
+    - destruct (pa7 s) as [k [E _]]. eauto.
+    - destruct (pa8 s) as [k [E _]]. eauto.
+    - destruct (pa9 s) as [k [E _]]. eauto.
+    - destruct (pa10 s) as [k [E _]]. eauto.
+  Qed.
+
+  Definition RI (f : fs) (ps : list (prog (list aobs))) : Prop := G f /\ Forall2 (Rl f) specs ps.
+
+  Lemma Forall2_nth : forall X Y (R : X -> Y -> Prop) l1 l2 a y, Forall2 R l1 l2 -> nth_error l2 a = Some y ->
+    exists x, nth_error l1 a = Some x /\ R x y.
+  Proof.
+    intros X Y R l1 l2 a y H. revert a. induction H; intros [|a] Hn; simpl in *; try discriminate.
+    - injection Hn as <-. eauto.
+    - eauto.
+  Qed.
+
+  Lemma istep_RI : forall f ps a, RI f ps -> RI (fst (istep (f, ps) a)) (snd (istep (f, ps) a)).
+  Proof.
+    intros f ps a [HG HF]. unfold istep. destruct (nth_error ps a) as [p|] eqn:En; [|split; auto].
+    destruct p as [x|e|c k]; [split; auto|split; auto|].
+    destruct (Forall2_nth _ _ _ _ _ a _ HF En) as [s [Es [q [Hp HL]]]].
+    assert (Hs : In s specs) by (eapply nth_error_In; eauto).
+    destruct (step_ok s q f c k Hs HG HL (eq_sym Hp)) as [q' [Hk [HL' [HG' HGu]]]].
+    destruct (exec_res f c) as [f' r]. cbn [fst snd] in *. split; auto.
+    apply (Forall2_upd _ _ (Rl f) (Rl f') specs ps a s (k r) HF nodup_specs Es).
+    - exists q'. auto.
+    - intros t p Ht Hne [qt [Hpt HLt]]. exists qt. split; auto. apply (L_stable t s qt f f'); auto.
+  Qed.
+
+  Lemma irun_RI : forall sched f ps, RI f ps -> RI (fst (irun sched (f, ps))) (snd (irun sched (f, ps))).
+  Proof.
+    induction sched as [|a sched IH]; intros f ps H; [exact H|].
+    change (irun (a :: sched) (f, ps)) with (irun sched (istep (f, ps) a)).
+    pose proof (istep_RI f ps a H) as H1. destruct (istep (f, ps) a) as [f1 ps1]. apply IH. exact H1.
+  Qed.
+
+  Lemma run_RI : forall p s q f, In s specs -> p = pa s q -> G f -> L s q f ->
+    exists f', run p f = (f', inl [OUnit; OUnit]) /\ G f' /\ L s PD f' /\ Guar s f f'.
+  Proof.
+    induction p as [x|e|c k IH]; intros s q f Hs Hp HG HL.
+    - destruct (pa_do_or_done s q) as [->|[c [k E]]]; [|congruence].
+      simpl in Hp. injection Hp as ->. exists f. split; [reflexivity|]. split; [exact HG|]. split; [exact HL|apply Guar_refl].
+    - destruct (pa_do_or_done s q) as [->|[c [k E]]]; [simpl in Hp; discriminate|congruence].
+    - destruct (step_ok s q f c k Hs HG HL (eq_sym Hp)) as [q' [Hk [HL' [HG' HGu]]]].
+      simpl. destruct (exec_res f c) as [f1 r]. cbn [fst snd] in *.
+      destruct (IH r s q' f1 Hs Hk HG' HL') as [f' [Er [HG2 [HL2 HGu2]]]].
+      exists f'. split; auto. split; auto. split; auto. eapply Guar_trans; eauto.
+  Qed.
+
+  Lemma finish_RI : forall ss ps f,
+    (forall s, In s ss -> In s specs) -> NoDup ss -> G f -> Forall2 (Rl f) ss ps ->
+    exists f', finish f ps = (f', map (fun _ => inl [OUnit; OUnit]) ss) /\ G f' /\
+               (forall s, In s ss -> L s PD f') /\
+               (forall t q, In t specs -> ~ In t ss -> L t q f -> L t q f').
+  Proof.
+    intros ss ps f Hsub Hnd HG HF. revert f HG HF. revert Hsub Hnd ps.
+    induction ss as [|s ss IH]; intros Hsub Hnd ps f HG HF.
+    - inversion HF; subst. exists f. simpl. split; [reflexivity|]. split; [exact HG|]. split; [intros s []|auto].
+    - inversion HF as [|? p ? ps' [q [Hp HL]] Hrest]; subst. inversion Hnd as [|? ? Hnotin Hnd']; subst.
+      assert (Hs : In s specs) by (apply Hsub; left; reflexivity).
+      destruct (run_RI (pa s q) s q f Hs eq_refl HG HL) as [f1 [Er [HG1 [HL1 HGu]]]].
+      assert (HF1 : Forall2 (Rl f1) ss ps').
+      { clear - Hrest HGu Hnotin Hsub Hs Htags. induction Hrest as [|t p l1 l2 [qt [Hpt HLt]] Hr IH']; constructor.
+        - exists qt. split; auto. apply (L_stable t s qt f f1); auto.
+          + apply Hsub. right. left. reflexivity.
+          + intro E. subst. apply Hnotin. left. reflexivity.
+        - apply IH'.
+          + intro Hin. apply Hnotin. right. exact Hin.
+          + intros t0 [E|Hin]; apply Hsub; [left|right; right]; auto. }
+      destruct (IH (fun t Ht => Hsub t (or_intror Ht)) Hnd' ps' f1 HG1 HF1) as [f' [Ef [HG' [HLs Hoth]]]].
+      exists f'. simpl. rewrite Er, Ef. split; auto. split; auto. split.
+      + intros t [<-|Ht]; auto. apply (Hoth s PD Hs Hnotin HL1).
+      + intros t qt Ht Hnin HLt. apply Hoth; auto.
+        apply (L_stable t s qt f f1); auto. intro E. subst. apply Hnin. left. reflexivity.
+  Qed.
+
+  (* ---- the final state is determined *)
+  Definition Fin (f : fs) : Prop := G f /\ forall s, In s specs -> L s PD f.
+
+  Lemma owned_dec : forall q, owned q \/ ~ owned q.
+  Proof.
+    intro q. unfold owned. induction specs as [|s l IH].
+    - right. intros [s [[] _]].
+    - destruct (path_eq_dec q (dirp s)) as [E|E1]; [left; exists s; simpl; auto|].
+      destruct (path_eq_dec q (filep s)) as [E|E2]; [left; exists s; simpl; auto|].
+      destruct (path_eq_dec q (tmpp s)) as [E|E3]; [left; exists s; simpl; auto|].
+      destruct IH as [[t [Ht Hq]]|Hn].
+      + left. exists t. simpl. auto.
+      + right. intros [t [[<-|Ht] Hq]]; [intuition|]. apply Hn. eauto.
+  Qed.
+
+  Lemma Fin_get : forall f, Fin f -> forall s, In s specs ->
+    get f (dirp s) = Some Dir /\ get f (tmpp s) = None /\
+    get f (filep s) = match get f0 (filep s) with None => Some (File (jc s)) | x => x end.
+  Proof.
+    intros f [HG HL] s Hs. destruct (HL s Hs) as [Ht [c [v [Hg [Hj Hv]]]]].
+    destruct (G_same s f HG Hs) as [q2 [[q3a q3b] [q4 q5]]].
+    destruct (Hpre s Hs) as [pd [pf [pt0 pfd]]].
+    split; [apply q5; congruence|]. split; [exact Ht|].
+    destruct pf as [pf|pf].
+    - rewrite pf. destruct (q3b pf) as [Q|Q]; congruence.
+    - rewrite (q3a pf). destruct pf as [c0 [v0 [Q _]]]. rewrite Q. reflexivity.
+  Qed.
+
+  Lemma Fin_unique : forall f g, Fin f -> Fin g -> fs_eq f g.
+  Proof.
+    intros f g Hf Hg q. destruct (owned_dec q) as [[s [Hs Hq]]|Hn].
+    - destruct (Fin_get f Hf s Hs) as [A1 [A2 A3]]. destruct (Fin_get g Hg s Hs) as [B1 [B2 B3]].
+      destruct Hq as [->|[->| ->]]; congruence.
+    - destruct Hf as [[g1 _] _]. destruct Hg as [[h1 _] _]. rewrite g1, h1; auto.
+  Qed.
+
+  Theorem init_race_safe_lemma : forall sched,
+    let '(f1, os) := interleave sched f0 (map rprog specs) in
+    os = map (fun _ => inl [OUnit; OUnit]) specs /\
+    fs_eq f1 (fst (sequential f0 (map rprog specs))) /\
+    (forall s, In s specs -> validf f1 s /\ get f1 (dirp s) = Some Dir /\ get f1 (tmpp s) = None) /\
+    (forall q, ~ owned q -> get f1 q = get f0 q).
+  Proof.
+    assert (H0 : RI f0 (map rprog specs)).
+    { split; [apply G_init|]. clear - Hpre. induction specs as [|s l IH]; simpl; constructor.
+      - exists P0. split; [reflexivity|]. cbn [L]. destruct (Hpre s (or_introl eq_refl)) as [_ [_ [Ht _]]]. exact Ht.
+      - apply IH. intros t Ht. apply Hpre. right. exact Ht. }
+    assert (Hfin : forall sched, exists f1, interleave sched f0 (map rprog specs) = (f1, map (fun _ => inl [OUnit; OUnit]) specs) /\ Fin f1).
+    { intro sched. unfold interleave. pose proof (irun_RI sched f0 _ H0) as [HG HF].
+      destruct (irun sched (f0, map rprog specs)) as [f' ps']. cbn [fst snd] in *.
+      destruct (finish_RI specs ps' f' (fun s Hs => Hs) nodup_specs HG HF) as [f1 [Ef [HG1 [HL1 _]]]].
+      exists f1. split; auto. split; auto. }
+    intro sched. destruct (Hfin sched) as [f1 [E1 F1]]. destruct (Hfin []) as [f2 [E2 F2]].
+    rewrite E1. rewrite interleave_nil in E2. rewrite E2. cbn [fst].
+    split; auto. split; [apply Fin_unique; auto|]. split.
+    - intros s Hs. destruct (Fin_get f1 F1 s Hs) as [A1 [A2 _]]. destruct F1 as [_ HL]. destruct (HL s Hs) as [_ Hv]. auto.
+    - destruct F1 as [[g1 _] _]. exact g1.
   Qed.
 End RACE.
